@@ -650,10 +650,15 @@ func bbConfigs(tier string) [][2]any {
 func C09(tier string) *engine.Report {
 	rep := engine.NewReport("C09", tier, "model_checking")
 	var tot engine.BFSTotals
+	deadline := engine.Cap(tier) // one wall-clock budget for the whole check
 	for _, c := range bbConfigs(tier) {
 		sp := bbSpec(c[0].(string), c[1].(int))
-		sp.Until = engine.Cap(tier)
-		tot.Add(sp.Name, sp.Run(), rep)
+		sp.Until = deadline
+		r := sp.Run()
+		if !r.Fixpoint {
+			r.Capped = true // this search is meant to reach a fixpoint; anything less is reported as not exhaustive
+		}
+		tot.Add(sp.Name, r, rep)
 	}
 	tot.Fill(rep, "reachable states of a real sonic.ByteBuffer (NewByteBuffer and zero value) under the whole public API with integer domains {MinInt,-1,0,1,2,3,len,len+1,MaxInt}, "+
 		"BFS to fixpoint with saved+readable+written <= lenMax; state = (slot lengths, readable, written, min(Reserved,12)); every transition runs the real method and the three-region model in lock-step "+
